@@ -374,6 +374,11 @@ def check(ctx):
     from .c02 import _registry
     _registry(ctx, repo)
     _fallback_only_for_unknown(ctx, repo)
+    # Time: every instant that fits the 32-bit field is accepted and nothing else is folded into it (the rules of C20 for the
+    # Time type, which C10's "encode that value or fail" clause depends on)
+    ctx.clause = "8c-time-domain"
+    from .c20 import _time as _time20
+    _time20(ctx, repo, repo.mods.get("bromelia.types"))
 
     # ---- clause 9: published identity -------------------------------------------------
     ctx.clause = "9-published-identity"
